@@ -13,6 +13,8 @@ def main(argv):
     parts_creation.run(rep, PID, rep.tier == 'thorough')
     # kernel traces with panicking teardowns / contended terminals: no call may hang (a lock left held) - the watchdog's "hang" event is unexplainable
     parts_kernel.trace_part(rep, PID, 300, [rep.seed * 100 + i for i in range(6 if rep.tier == 'thorough' else 1)])
+    # operator-level scenarios (several producers / a context cancelled from another goroutine): the Error callback begins after every value callback has returned
+    parts_kernel.trace_part(rep, PID, 300, [rep.seed * 100 + 50 + i for i in range(6 if rep.tier == 'thorough' else 1)], extra=['-ops'], label='drive-ops')
     rep.cov['rule'] = common.PIPE_RULE + ('; C07: for every case a fault plan: panic(error value) or panic(arbitrary value) in the subscribe function of the source or at the '
                                           'k-th invocation (k<=2) of the user callback of stage 1 or 2; expected: the values before the fault, then exactly one Error that '
                                           'still matches the cause, nothing afterwards, no panic in the caller, follow-up notifications still handled (no lock left held); '
